@@ -130,7 +130,8 @@ def run_cqm(case):
         cqms = d["cqms"]
         qop = Q.coq_qop(op, prev)
         modelled += qop is not None
-        steps.append(f"({'None' if qop is None else '(Some ' + qop + ')'}, {clist([Q.coq_qobs(c) for c in cqms])})")
+        steps.append(f"({'None' if qop is None else '(Some ' + qop + ')'}, {Q.coq_qret(op, d.get('ret'))}, "
+                     f"{clist([Q.coq_qobs(c) for c in cqms])})")
         if not K.exact_enough([e for c in cqms for e in [c["obj"]] + c["cons"]]):
             break
     end = S.close()
